@@ -9,7 +9,7 @@ kf = json.load(open(p))
 kind = sys.argv[1]
 if kind == 'fixed':
     prop, commit, sig, reg, what = sys.argv[2:7]
-    kf['fixed'] = [e for e in kf['fixed'] if not (e['property'] == prop and e['signature'] == sig)]
+    kf['fixed'] = [e for e in kf['fixed'] if not (e['property'] == prop and e['signature'] == sig and e['regression'] == reg)]
     kf['fixed'].append(dict(property=prop, commit=commit, signature=sig, regression=reg,
                             what='fixed: property=%s %s %s' % (prop, commit, what)))
 elif kind == 'known':
